@@ -387,7 +387,7 @@ func (m *cacheModel) analyseLocks(fn *ssa.Function, entryLocked bool) *fnLockRes
 
 func runC09(c *Ctx) {
 	P := c.P
-	c.Explanation = "Lock-discipline proof for cache.Cache: a flow-sensitive must-lockset analysis over the go/ssa CFG of every function of package cache that touches guarded Cache state shows that every access to {store,size,limit,count}, every Store-interface call and every callback call happens while c.μ is held (R-LOCK-HELD); each method is exactly one critical section opened first thing and closed by a deferred Unlock (R-LOCK-WHOLE); no function outside those sections touches guarded state (R-LOCK-WHO); no call made under the lock can re-acquire it (R-LOCK-REENTRY); callback fields and limit are written only at construction (R-SETONCE); the package starts no goroutines and uses no channels (R-NO-GO); lruStore state is reachable only through the Store interface from Cache methods (R-STORE-PRIVATE). Together: all conflicting accesses are ordered by the mutex (no data race) and every concurrent history is equivalent to the sequential history in lock-acquisition order (linearizable w.r.t. the sequential behaviour of C08). Lock operations on a by-value copy of the cache are reported as not being operations on the shared mutex. Does NOT decide the sequential behaviour itself, nor liveness."
+	c.Explanation = "Lock-discipline proof for cache.Cache: a flow-sensitive must-lockset analysis over the go/ssa CFG of every function of package cache that touches guarded Cache state shows that every access to {store,size,limit,count}, every Store-interface call and every callback call happens while c.μ is held (R-LOCK-HELD); each method is exactly one critical section opened first thing and closed by a deferred Unlock (R-LOCK-WHOLE); no function outside those sections touches guarded state (R-LOCK-WHO); no call made under the lock can re-acquire it (R-LOCK-REENTRY); callback fields and limit are written only at construction (R-SETONCE); the package starts no goroutines and uses no channels (R-NO-GO); lruStore state is reachable only through the Store interface from Cache methods (R-STORE-PRIVATE). Together: all conflicting accesses are ordered by the mutex (no data race) and every concurrent history is equivalent to the sequential history in lock-acquisition order (linearizable w.r.t. the sequential behaviour of C08). Lock operations on a by-value copy of the cache are reported as not being operations on the shared mutex. An exported method that leaves the locking to a callee makes exactly one lock-acquiring call, not in a loop; closures and helpers that only relay to a function touching guarded state take part in the entry-lockset fixpoint. Does NOT decide the sequential behaviour itself, nor liveness."
 	c.assume("user callbacks (sizeOf, onEvict) do not call back into the same Cache (they would self-deadlock, visibly)")
 	c.assume("a Store is not shared between caches (documented contract of the Store interface)")
 	c.assume("cached values are not mutated by their owners after Put")
